@@ -20,6 +20,7 @@ about `Schema.IsEmpty`, which is no longer on the traffic path).
   * guarded_terminates   — `L: {items: {$ref: L}}`, with or without own keywords, is decided for every value, explicit fuel
   * executable side for the driver: `envOf`, `hasUnguardedCycle`, `guardedB`
 -/
+set_option linter.unusedSimpArgs false
 namespace KinModel.NoPanic.Recursion
 
 inductive J where
@@ -50,6 +51,32 @@ def Res.neg : Res → Res
   | .diverge => .diverge
   | .ok b => .ok (!b)
 
+/-- the combinators the validators are written with take their second argument as a thunk: the compiled driver must
+    not evaluate what the Go code does not visit (a strict second argument costs time exponential in the fuel on
+    environments with several unguarded references per definition). They are `Res.and` / `Res.orElse` (lemmas
+    below), so every proof is about those. -/
+def Res.andT (a : Res) (b : Unit → Res) : Res :=
+  match a with
+  | .diverge => .diverge
+  | .ok false => .ok false
+  | .ok true => b ()
+
+def Res.orT (a : Res) (b : Unit → Res) : Res :=
+  match a with
+  | .diverge => .diverge
+  | .ok true => .ok true
+  | .ok false => b ()
+
+@[simp] theorem Res.andT_eq (a : Res) (b : Unit → Res) : a.andT b = a.and (b ()) := by
+  cases a with
+  | diverge => rfl
+  | ok x => cases x <;> rfl
+
+@[simp] theorem Res.orT_eq (a : Res) (b : Unit → Res) : a.orT b = a.orElse (b ()) := by
+  cases a with
+  | diverge => rfl
+  | ok x => cases x <;> rfl
+
 mutual
 /-- `Schema.IsEmpty`: own keyword → false at once; else not, items, anyOf, allOf in the code's order, the first
     non-empty one answers -/
@@ -59,13 +86,13 @@ def isEmpty (Γ : Env) : Nat → S → Res
   | fuel + 1, .ref x => (match Γ x with | none => .ok true | some s => isEmpty Γ fuel s)
   | fuel + 1, .node own nt anyOf allOf items =>
     if own then .ok false
-    else Res.and (match nt with | none => Res.ok true | some s => isEmpty Γ fuel s)
-          (Res.and (match items with | none => Res.ok true | some s => isEmpty Γ fuel s)
-            (Res.and (isEmptyAll Γ fuel anyOf) (isEmptyAll Γ fuel allOf)))
+    else Res.andT (match nt with | none => Res.ok true | some s => isEmpty Γ fuel s) fun _ =>
+          Res.andT (match items with | none => Res.ok true | some s => isEmpty Γ fuel s) fun _ =>
+            Res.andT (isEmptyAll Γ fuel anyOf) fun _ => isEmptyAll Γ fuel allOf
 def isEmptyAll (Γ : Env) : Nat → List S → Res
   | _, [] => .ok true
   | 0, _ :: _ => .diverge
-  | fuel + 1, s :: ss => (isEmpty Γ fuel s).and (isEmptyAll Γ fuel ss)
+  | fuel + 1, s :: ss => (isEmpty Γ fuel s).andT fun _ => isEmptyAll Γ fuel ss
 end
 
 /-- `hasSubSchemas` -/
@@ -79,24 +106,24 @@ def visit (Γ : Env) : Nat → S → J → Res
   | _ + 1, .leaf a, v => (match v with | .num _ => .ok a | .arr _ => .ok true)
   | fuel + 1, .ref x, v => (match Γ x with | none => .ok false | some s => visit Γ fuel s v)
   | fuel + 1, .node _ nt anyOf allOf items, v =>
-    (match nt with | none => Res.ok true | some s => (visit Γ fuel s v).neg).and
-      ((match anyOf with | [] => Res.ok true | _ :: _ => visitAny Γ fuel anyOf v).and
-        ((visitAll Γ fuel allOf v).and
+    (match nt with | none => Res.ok true | some s => (visit Γ fuel s v).neg).andT fun _ =>
+      (match anyOf with | [] => Res.ok true | _ :: _ => visitAny Γ fuel anyOf v).andT fun _ =>
+        (visitAll Γ fuel allOf v).andT fun _ =>
           (match v, items with
            | .arr xs, some s => visitItems Γ fuel s xs
-           | _, _ => .ok true)))
+           | _, _ => .ok true)
 def visitAny (Γ : Env) : Nat → List S → J → Res
   | _, [], _ => .ok false
   | 0, _ :: _, _ => .diverge
-  | fuel + 1, s :: ss, v => (visit Γ fuel s v).orElse (visitAny Γ fuel ss v)
+  | fuel + 1, s :: ss, v => (visit Γ fuel s v).orT fun _ => visitAny Γ fuel ss v
 def visitAll (Γ : Env) : Nat → List S → J → Res
   | _, [], _ => .ok true
   | 0, _ :: _, _ => .diverge
-  | fuel + 1, s :: ss, v => (visit Γ fuel s v).and (visitAll Γ fuel ss v)
+  | fuel + 1, s :: ss, v => (visit Γ fuel s v).andT fun _ => visitAll Γ fuel ss v
 def visitItems (Γ : Env) : Nat → S → List J → Res
   | _, _, [] => .ok true
   | 0, _, _ :: _ => .diverge
-  | fuel + 1, s, x :: xs => (visit Γ fuel s x).and (visitItems Γ fuel s xs)
+  | fuel + 1, s, x :: xs => (visit Γ fuel s x).andT fun _ => visitItems Γ fuel s xs
 end
 
 /-- "decided": some fuel gives an answer -/
@@ -147,12 +174,12 @@ theorem visit_mono_ok (Γ : Env) : ∀ fuel,
       cases s with
       | leaf a => simpa [visit] using h
       | ref x =>
-        simp only [visit] at h ⊢
+        simp only [visit, Res.andT_eq, Res.orT_eq] at h ⊢
         cases hg : Γ x with
         | none => simpa [hg] using h
         | some s' => simp only [hg] at h ⊢; exact ihV s' v b h
       | node own nt anyOf allOf items =>
-        simp only [visit] at h ⊢
+        simp only [visit, Res.andT_eq, Res.orT_eq] at h ⊢
         refine andMono _ _ _ _ b ?_ ?_ h
         · intro x hx
           cases nt with
@@ -177,19 +204,19 @@ theorem visit_mono_ok (Γ : Env) : ∀ fuel,
       cases ss with
       | nil => simpa [visitAny] using h
       | cons s ss =>
-        simp only [visitAny] at h ⊢
+        simp only [visitAny, Res.andT_eq, Res.orT_eq] at h ⊢
         exact orMono _ _ _ _ b (fun x hx => ihV s v x hx) (fun x hx => ihY ss v x hx) h
     · intro ss v b h
       cases ss with
       | nil => simpa [visitAll] using h
       | cons s ss =>
-        simp only [visitAll] at h ⊢
+        simp only [visitAll, Res.andT_eq, Res.orT_eq] at h ⊢
         exact andMono _ _ _ _ b (fun x hx => ihV s v x hx) (fun x hx => ihA ss v x hx) h
     · intro s xs b h
       cases xs with
       | nil => simpa [visitItems] using h
       | cons x xs =>
-        simp only [visitItems] at h ⊢
+        simp only [visitItems, Res.andT_eq, Res.orT_eq] at h ⊢
         exact andMono _ _ _ _ b (fun y hy => ihV s x y hy) (fun y hy => ihI s xs y hy) h
 
 theorem visit_mono_k (Γ : Env) (k : Nat) :
@@ -292,7 +319,7 @@ theorem decAll (Γ : Env) (v : J) : ∀ (ss : List S), (∀ s ∈ ss, ∃ n b, v
     have e2 : visitAll Γ (n1 + n2) ss v = .ok b2 := by
       have := (visit_mono_k Γ n1).2.2.1 n2 ss v b2 h2
       rwa [Nat.add_comm] at this
-    simp only [visitAll, e1, e2]
+    simp only [visitAll, Res.andT_eq, Res.orT_eq, e1, e2]
     cases b1 <;> simp [Res.and]
 
 theorem decAny (Γ : Env) (v : J) : ∀ (ss : List S), (∀ s ∈ ss, ∃ n b, visit Γ n s v = .ok b) →
@@ -306,7 +333,7 @@ theorem decAny (Γ : Env) (v : J) : ∀ (ss : List S), (∀ s ∈ ss, ∃ n b, v
     have e2 : visitAny Γ (n1 + n2) ss v = .ok b2 := by
       have := (visit_mono_k Γ n1).2.1 n2 ss v b2 h2
       rwa [Nat.add_comm] at this
-    simp only [visitAny, e1, e2]
+    simp only [visitAny, Res.andT_eq, Res.orT_eq, e1, e2]
     cases b1 <;> simp [Res.orElse]
 
 theorem decItems (Γ : Env) (s : S) : ∀ (xs : List J), (∀ x ∈ xs, ∃ n b, visit Γ n s x = .ok b) →
@@ -320,7 +347,7 @@ theorem decItems (Γ : Env) (s : S) : ∀ (xs : List J), (∀ x ∈ xs, ∃ n b,
     have e2 : visitItems Γ (n1 + n2) s xs = .ok b2 := by
       have := (visit_mono_k Γ n1).2.2.2 n2 s xs b2 h2
       rwa [Nat.add_comm] at this
-    simp only [visitItems, e1, e2]
+    simp only [visitItems, Res.andT_eq, Res.orT_eq, e1, e2]
     cases b1 <;> simp [Res.and]
 
 /-- combining four decided parts of a node -/
@@ -448,7 +475,7 @@ theorem step (Γ : Env) (rk : Nat → Nat) (v : J) (r : Nat)
             | none => simpa using hx
             | some s' => simp only at hx ⊢; exact items_mono_le Γ hnm s' xs x hx)
         ha hb hc hd
-      exact ⟨n + 1, x, by simp only [visit]; exact h⟩
+      exact ⟨n + 1, x, by simp only [visit, Res.andT_eq, Res.orT_eq]; exact h⟩
 
 /-- **Guarded recursion terminates, in general**: in a ranked environment (no cycle of unguarded references) the
     validator decides every schema on every value. -/
@@ -503,8 +530,8 @@ theorem unguarded_diverges (own : Bool) (v : J) : ∀ (fuel : Nat),
     obtain ⟨ih1, ih2, ih3⟩ := unguarded_diverges own v fuel
     refine ⟨?_, ?_, ?_⟩
     · simpa [visit, Γ6] using ih2
-    · simp only [visit, ih3]; rfl
-    · simp only [visitAll, ih1]; rfl
+    · simp only [visit, Res.andT_eq, Res.orT_eq, ih3]; rfl
+    · simp only [visitAll, Res.andT_eq, Res.orT_eq, ih1]; rfl
 
 /-- the same through `not` and through `anyOf`: `A: {not: {$ref: A}}`, `A: {anyOf: [{$ref: A}]}` -/
 def ΓN : Env := fun x => if x = 0 then some (.node false (some (.ref 0)) [] [] none) else none
@@ -517,7 +544,7 @@ theorem not_cycle_diverges (v : J) : ∀ (fuel : Nat),
     obtain ⟨ih1, ih2⟩ := not_cycle_diverges v fuel
     refine ⟨?_, ?_⟩
     · simpa [visit, ΓN] using ih2
-    · simp only [visit, ih1]; rfl
+    · simp only [visit, Res.andT_eq, Res.orT_eq, ih1]; rfl
 
 theorem anyOf_cycle_diverges (v : J) : ∀ (fuel : Nat),
     visit ΓY fuel (.ref 0) v = .diverge ∧ visit ΓY fuel (.node false none [.ref 0] [] none) v = .diverge ∧
@@ -527,8 +554,8 @@ theorem anyOf_cycle_diverges (v : J) : ∀ (fuel : Nat),
     obtain ⟨ih1, ih2, ih3⟩ := anyOf_cycle_diverges v fuel
     refine ⟨?_, ?_, ?_⟩
     · simpa [visit, ΓY] using ih2
-    · simp only [visit, ih3]; rfl
-    · simp only [visitAny, ih1]; rfl
+    · simp only [visit, Res.andT_eq, Res.orT_eq, ih3]; rfl
+    · simp only [visitAny, Res.andT_eq, Res.orT_eq, ih1]; rfl
 
 /-- `L: {items: {$ref: L}}` -/
 def ΓL (own : Bool) : Env := fun x => if x = 0 then some (.node own none [] [] (some (.ref 0))) else none
@@ -542,7 +569,7 @@ theorem isEmpty_diverges : ∀ (fuel : Nat),
     obtain ⟨ih1, ih2⟩ := isEmpty_diverges fuel
     refine ⟨?_, ?_⟩
     · simpa [isEmpty, ΓL] using ih2
-    · simp only [isEmpty, Bool.false_eq_true, if_false, ih1]; rfl
+    · simp only [isEmpty, Res.andT_eq, Res.orT_eq, Bool.false_eq_true, if_false, ih1]; rfl
 
 mutual
 def fuelFor : J → Nat
@@ -560,12 +587,12 @@ theorem guarded_terminates (own : Bool) : ∀ (v : J), visit (ΓL own) (fuelFor 
     have h := guarded_items own xs
     simp only [fuelFor]
     rw [show 2 + fuelForL xs = (fuelForL xs + 1) + 1 by omega]
-    simp only [visit, ΓL, if_true]
+    simp only [visit, Res.andT_eq, Res.orT_eq, ΓL, if_true]
     cases hx : fuelForL xs with
     | zero =>
       have : xs = [] := by cases xs <;> simp_all [fuelForL]
       subst this; simp [visitAll, visitItems, Res.and]
-    | succ g => rw [hx] at h; simp only [visitAll, Res.and]; exact h
+    | succ g => rw [hx] at h; simp only [visitAll, Res.andT_eq, Res.orT_eq, Res.and]; exact h
 theorem guarded_items (own : Bool) : ∀ (xs : List J), visitItems (ΓL own) (fuelForL xs) (.ref 0) xs = .ok true
   | [] => by simp [visitItems]
   | x :: xs => by
@@ -573,7 +600,7 @@ theorem guarded_items (own : Bool) : ∀ (xs : List J), visitItems (ΓL own) (fu
     have h2 := guarded_items own xs
     simp only [fuelForL]
     rw [show 1 + fuelFor x + fuelForL xs = (fuelFor x + fuelForL xs) + 1 by omega]
-    simp only [visitItems]
+    simp only [visitItems, Res.andT_eq, Res.orT_eq]
     have e1 := (visit_mono_k (ΓL own) (fuelForL xs)).1 _ _ _ _ h1
     have e2 := (visit_mono_k (ΓL own) (fuelFor x)).2.2.2 _ _ _ _ h2
     rw [Nat.add_comm (fuelForL xs) (fuelFor x)] at e2
